@@ -16,6 +16,9 @@ func main() {
 		os.Exit(2)
 	}
 	id := os.Args[1]
+	if w, ok := props.Workers[id]; ok {
+		os.Exit(w(os.Args[2:])) // internal: an isolated worker process of some check
+	}
 	tier := os.Getenv("VERIF_TIER")
 	replay := ""
 	for i := 2; i < len(os.Args); i++ {
